@@ -17,6 +17,8 @@ build is not analysable and is outside the rule.
   fe_half      2 r' = r (mod p), output magnitude floor(m/2)+1                            fe_half
   fe_negate    r + a = 0 (mod p), no subtraction wraps, output magnitude m+1, for every constant m the callers pass
   fe_mul_int   r' = c r exactly for every constant factor the callers pass; fe_add: r' = r + a exactly
+  i128_rshift  (emulated 128-bit integers only) the two words after secp256k1_i128_rshift(x, n) are the two's-complement
+               pattern of floor(x / 2^n), sign extension included, for every constant n the callers pass
   mul_shift    for each constant shift its callers use: the limbs stored to r are floor(a b / 2^shift) and the rounding
                bit handed to scalar_cadd_bit is bit shift-1 of the product                scalar_mul_shift_var
 
@@ -48,6 +50,7 @@ SPECS = [
     ("secp256k1_fe_negate_unchecked", "fe_negate"),
     ("secp256k1_fe_mul_int_unchecked", "fe_mul_int"),
     ("secp256k1_fe_add", "fe_add"),
+    ("secp256k1_i128_rshift", "i128_rshift"),
 ]
 # C05 is the home of the arithmetic; C01 / C02 quantify their signature equations "on every build configuration" and
 # consist of nothing but this arithmetic, so a wrong product in a portable configuration breaks them as well
@@ -400,7 +403,36 @@ def _fe_add(prog, f):
     return _verdict(L, padd(X, E, -1), None, "r' = r + a for magnitudes 16 + 16"), L
 
 
-KINDS = {"fe_weak": _fe_weak, "fe_weak_m32": _fe_weak32, "fe_half": _fe_half, "fe_negate": _fe_negate, "fe_mul_int": _fe_mul_int, "fe_add": _fe_add,
+def _i128_rshift(prog, f):
+    """Emulated signed 128-bit shift: (lo', hi') is the two's-complement pattern of floor(x / 2^n) for the pattern x = (lo, hi),
+    for every constant n the callers pass."""
+    st = prog.structs.get("secp256k1_int128") or prog.structs.get("secp256k1_uint128")
+    r, np_ = f.params[0]["name"], f.params[1]["name"]
+    if f.params[0].get("pointee_canon") in ("__int128", "unsigned __int128") or not st:
+        return (True, "native 128-bit integers: the shift is the compiler's"), None
+    ns = _const_args(prog, f.name, 1)
+    if not ns or None in ns:
+        raise Undecided("callers pass a non-constant shift")
+    L = None
+    for n in sorted(ns):
+        L = Limbs(prog, lambda key: (1 << 64) - 1 if key in (r + "[0].lo", r + "[0].hi") else None)
+        L.mem[np_] = Val(pconst(n), n)
+        L.run(f)
+        lo, hi = L.inputs.get(r + "[0].lo"), L.inputs.get(r + "[0].hi")
+        if hi is None:
+            return (False, "the high word is not used"), L
+        X = padd(L.mem[r + "[0].lo"].p if r + "[0].lo" in L.mem else patom(lo), pscale(L.mem[r + "[0].hi"].p if r + "[0].hi" in L.mem else patom(hi), 1 << 64))
+        x = padd(patom(lo) if lo is not None else {}, pscale(patom(hi), 1 << 64))
+        lo_, q = L.split(Val(x, (1 << 128) - 1), 1 << n, "x >> %d" % n)
+        l2, sign = L.split(Val(patom(hi), (1 << 64) - 1), 1 << 63, "sign of x")
+        E = padd(q.p, pscale(sign.p, (1 << 128) - (1 << (128 - n))))
+        ok, det = _verdict(L, padd(X, E, -1), None, "(lo', hi') = x >> %d as a signed 128-bit value" % n)
+        if not ok:
+            return (False, det), L
+    return (True, "arithmetic shift by %s: low word, high word and sign extension as specified" % ", ".join(map(str, sorted(ns)))), L
+
+
+KINDS = {"i128_rshift": _i128_rshift, "fe_weak": _fe_weak, "fe_weak_m32": _fe_weak32, "fe_half": _fe_half, "fe_negate": _fe_negate, "fe_mul_int": _fe_mul_int, "fe_add": _fe_add,
          "product": _product, "reduce512": _reduce512, "reduce": _reduce, "add": _add, "fe_product": _fe_product, "mul_shift": _mul_shift}
 
 
@@ -408,6 +440,8 @@ def obligations(prog):
     obs, undec, stats = [], [], {}
     for (fname, knd) in SPECS:
         f = prog.functions.get(fname)
+        if (f is None or not f.blocks) and knd == "i128_rshift":
+            continue          # no 128-bit integers in the 32-bit configuration
         if f is None or not f.blocks:
             raise AnalysisBroken("R-LIMB: kernel %s not found" % fname)
         oid = "R-LIMB:%s:%s" % (fname, knd)
@@ -418,7 +452,8 @@ def obligations(prog):
             continue
         try:
             (ok, det), L = KINDS[knd](prog, f)
-            stats[fname] = {"atoms": len(L.atoms), "wraps_excluded": L.wraps_proved, "by_relaxation": L.relaxed}
+            if L is not None:
+                stats[fname] = {"atoms": len(L.atoms), "wraps_excluded": L.wraps_proved, "by_relaxation": L.relaxed}
             if not ok and getattr(L, "failures", None):
                 for (slug, loc, d) in L.failures:
                     obs.append(Obligation("R-LIMB", "%s:lost:%s" % (oid, slug), loc, fname, text, False, d, props=PROPS))
